@@ -187,6 +187,8 @@ def _cursor_eq(test) -> List[Tuple[str, str]]:
             subj = norm_stmt(p.left)
             if subj in ('cur', 'next_char', 'self._current()', 'self._peek()'):
                 out.append((subj, c))
+            elif subj.replace(' ', '').startswith('self.sequence[self.position+'):
+                out.append(('self._current()', c))  # a look-ahead at the character after the cursor
         elif isinstance(p, ast.Compare) and len(p.ops) == 1 and isinstance(p.ops[0], ast.In) and \
                 isinstance(p.comparators[0], (ast.Tuple, ast.List, ast.Set)) and norm_stmt(p.left) == 'cur':
             cs = [_const_str(x) for x in p.comparators[0].elts]
